@@ -11,7 +11,7 @@ Decided:
 """
 from ..flow import arg_origins, origins
 from ..mir import try_edges
-from ..util import agg_assigns, polls, result_return_kinds, unreachable_without, where
+from ..util import agg_assigns, deep_fields, polls, result_return_kinds, unreachable_without, where
 from .http_common import GET, POST, SEND
 
 LEVEL = "other"
@@ -100,7 +100,7 @@ def check(ctx):
             for c in cs:
                 for t in try_edges(gb, [c.dest["l"]]):
                     for tg in t["err"]:
-                        r = gb.reachable([tg])
+                        r = gb.reachable_flags([tg])     # variant-tag sensitive (an Err built in an inlined helper stays an Err at the caller's `?`)
                         ctx.require(R3, nx[0].bb not in r and not ({a.bb for a in adds} & r), c.where(),
                                     "a failed %s ends get_client with an error (the file is not skipped)" % role, [GC, "skip-on-" + role])
                 if not try_edges(gb, [c.dest["l"]]):
@@ -127,9 +127,10 @@ def check(ctx):
     ctx.floor(R4, "Endpoint::new call in config::Endpoint::to_generic", len(news), 1)
     for c in news:
         sl = arg_origins(c, 4)
+        df = deep_fields(prog, sl)
         want = {"cmdline": sl.has_leaf("param:3"),
-                "endpoint": ("acmed::config::Endpoint", "root_certificates") in sl.fields,
-                "global": ("acmed::config::GlobalOptions", "root_certificates") in sl.fields}
+                "endpoint": ("acmed::config::Endpoint", "root_certificates") in df,
+                "global": ("acmed::config::GlobalOptions", "root_certificates") in df}
         for nm, ok in want.items():
             ctx.require(R4, ok, c.where(), "the root list includes the %s certificates" % nm, ["config::Endpoint::to_generic", "roots-" + nm])
         shr = [v for v in sl.via if v.rsplit("::", 1)[-1] in ("filter", "take", "skip", "truncate", "retain", "dedup", "pop", "first", "last", "clear", "drain")]
@@ -143,7 +144,7 @@ def check(ctx):
         if c.bb not in tg.live_blocks() or (c.name or "").rsplit("::", 1)[-1] not in ("extend", "push", "append", "extend_from_slice", "chain"):
             continue
         for k_ in range(1, len(c.args)):
-            f_ = arg_origins(c, k_).fields
+            f_ = deep_fields(prog, arg_origins(c, k_))
             if EPF in f_:
                 adders.setdefault("endpoint", []).append(c)
             if GLF in f_:
@@ -152,7 +153,8 @@ def check(ctx):
         rem, nt = enum_edges(tg, other, "Some")
         reach = tg.reachable(0, removed_edges=rem)
         cs_ = adders.get(nm, [])
-        ctx.require(R4, bool(cs_) and nt > 0 and any(c.bb in reach for c in cs_), cs_[0].where() if cs_ else "%s:%s" % (tg.file, tg.line),
+        # (no test of the other source at all — e.g. `a.iter().flatten().chain(b.iter().flatten())` — is the unconditional union)
+        ctx.require(R4, bool(cs_) and any(c.bb in reach for c in cs_), cs_[0].where() if cs_ else "%s:%s" % (tg.file, tg.line),
                     "the %s roots are added also when the %s list is present (union of the sources, not a fallback)" % (nm, "endpoint's" if nm == "global" else "global"),
                     ["config::Endpoint::to_generic", "roots-fallback", nm])
     en = prog.must_body("acmed::endpoint::Endpoint::new")
